@@ -455,6 +455,24 @@ def handle (sess : Sess) (rep : Report) (ln : Nat) (toks : List String) (obs : S
         ({ sess with model := none, mon := mon },
          if sess.model.isSome then { rep.msg s!"DIVERGE line={ln} model={shown.take 400} impl={obs.take 400}" with diverged := rep.diverged + 1 } else rep)
     | _, _ => (sess, rep.msg s!"BAD line={ln}")
+  | "ccsflaky" :: rest =>
+    -- a resolver update during which the connection factory works once or twice more and then fails for good
+    -- (a ClientConn that is closing). The model's factory fails from the first creation on, so this step is
+    -- outside it: the model is dropped without a divergence and the monitors go on alone (C06: the call returns)
+    let a := args rest
+    match (arg a "addrs").toNat? with
+    | none => (sess, rep.msg s!"BAD line={ln}")
+    | some ver =>
+      if obs == "bad-op" || obs == "dead" then (sess, rep) else
+      let evs := (obs.splitOn " ; ").filter fun e => !(e.startsWith "dg ")
+      -- the failures of this step are injected ones (the monitor counts creation failures against those)
+      let nFail := (evs.filter (· == "newfail")).length
+      let (mon, fails, hits) := { sess.mon with failN := sess.mon.failN + nFail }.observe (.ccs ver) evs (parseDigest obs)
+      let mon := { mon with failN := sess.mon.failN - min sess.mon.failN nFail }
+      let rep := fails.foldl (fun (rep : Report) (p, c) =>
+        { rep.msg s!"MONITOR property={p} clause={c} line={ln}" with monitorFails := rep.monitorFails + 1 }) rep
+      let rep := hits.foldl (fun (rep : Report) h => rep.bump h) rep
+      ({ sess with model := none, mon := mon }, rep.bump "pool.factory_fails_after_first_successes")
   | "donepark" :: rest =>
     -- a deadline-exceeded completion (a) that has decided to refresh is stopped in front of the balancer lock while
     -- another one (b) completes, the replacement (if exactly one refresh is in flight) reports READY and takes over,
